@@ -158,6 +158,11 @@ pub fn catalogue() -> Vec<CatOp> {
     op!(v, "r.set_reference_target(c)", false, |s: &Seed| res(s.r.set_reference_target(&s.c)));
     op!(v, "r.set_character_data(/p1/x)", false, |s: &Seed| res(s.r.set_character_data("/p1/x")));
     op!(v, "r2.set_character_data(/nope2)", false, |s: &Seed| res(s.r2.set_character_data("/nope2")));
+    // renaming through the SHORT-NAME element itself (it reads the path of its parent while holding on to itself)
+    op!(v, "c.SHORT-NAME.set_character_data(c9)", false, |s: &Seed| match s.c.get_sub_element(ElementName::ShortName) {
+        Some(sn) => res(sn.set_character_data("c9")),
+        None => "no SHORT-NAME".to_string(),
+    });
     op!(v, "r.remove_character_data", false, |s: &Seed| res(s.r.remove_character_data()));
     op!(v, "c.set_comment", false, |s: &Seed| {
         s.c.set_comment(Some("x".into()));
